@@ -75,6 +75,15 @@ pub fn gen_case(family: &str, i: u64, seed: u64, lim: &GenLimits) -> StaticCase 
         "union" => gen::union_family(&mut rng, 12),
         "layered" => gen::layered_family(&mut rng, 13),
         "many-components" => gen::many_components(&mut rng),
+        "long-search" => {
+            if rng.pct(50) {
+                let g = gen::lattice(&mut rng, 13);
+                gen::shuffle_labels(&g, &mut rng)
+            } else {
+                let k = rng.range(3, 5);
+                gen::adm_rich(&mut rng, k)
+            }
+        }
         "lattice" => {
             let g = gen::lattice(&mut rng, 9);
             gen::shuffle_labels(&g, &mut rng)
